@@ -134,7 +134,7 @@ func judgeOwn(results []ownResult, stress bool) []finding {
 			// Response and error channel it no longer owns; every foreign or empty response of
 			// the same execution is this or a consequence of it (the robbed request's own
 			// completion arrives late in turn).
-			cls := "no-timeout-overtaken"
+			cls := "no-goroutine-held-at-hook"
 			switch {
 			case stress:
 				cls = "concurrent-timeouts-and-cancellations"
@@ -504,7 +504,6 @@ func ownershipCorpus(e *ev.Env) {
 func timeoutPrecedence(e *ev.Env, c *ev.Case) {
 	r := c.R
 	rig := newOwnRig(false)
-	defer rig.close()
 	d := r.Range(20, 200)
 	lo := r.Range(5, d-5)
 	hi := d + r.Range(5, 100)
@@ -542,6 +541,8 @@ func timeoutPrecedence(e *ev.Env, c *ev.Case) {
 		}
 	}
 	switch {
+	case err == nil && body != "id="+id:
+		e.Violation(c, "ownership|response-without-own-id|sequential", "sequential request got a foreign body", det)
 	case reqWins && err == nil:
 		e.Violation(c, "precedence|timeout", "the request-level timeout is shorter than the server delay, the client-level one longer: the call must time out", det)
 	case reqWins && !errors.Is(err, client.ErrTimeoutOrCancel):
@@ -550,10 +551,11 @@ func timeoutPrecedence(e *ev.Env, c *ev.Case) {
 		e.Violation(c, "precedence|timeout|fired-at-other-instant", "the call did not time out at the request-level timeout", det)
 	case !reqWins && err != nil:
 		e.Violation(c, "precedence|timeout", "the request-level timeout is longer than the server delay, the client-level one shorter: the call must succeed", det)
-	case !reqWins && body != "id="+id:
-		e.Violation(c, "ownership|response-without-own-id|sequential", "sequential request got a foreign body", det)
 	}
 	e.Nontrivial("timeout", strconv.Itoa(d), strconv.Itoa(tc), strconv.Itoa(tr))
-	// drain what the timed-out call left behind
+	// drain what the timed-out call left behind, and empty the pools (see runOwnSchedule)
 	time.Sleep(time.Duration(d+10) * time.Millisecond)
+	rig.close()
+	runtime.GC()
+	runtime.GC()
 }
